@@ -220,6 +220,10 @@ impl<'tcx> Cx<'tcx> {
         if let ty::FnDef(did, args) = ty.kind() {
             o.push(("fn", s(path_of(self.tcx, *did))));
             o.push(("args", self.generic_args(args)));
+            // a function item used as a value (`.map(u32::try_from)`): resolve a trait method to its impl
+            if let Ok(Some(inst)) = Instance::try_resolve(self.tcx, self.env, *did, args) {
+                o.push(("resolved", s(path_of(self.tcx, inst.def_id()))));
+            }
             return J::Obj(o);
         }
         // which item does an unevaluated constant name?
